@@ -249,7 +249,17 @@ func TestVerifRecC04(t *testing.T) {
 
 	bin := func(op string, a, b []uint64) {
 		ea, eb := verifFromLimbs(a), verifFromLimbs(b)
-		var o Element
+		// receiver: fresh, or (aliasing) the first operand, the second operand, or one object in all three roles
+		var fresh Element
+		o, pa, pb := &fresh, &ea, &eb
+		switch g.r.Intn(8) {
+		case 0:
+			o = pa
+		case 1:
+			o = pb
+		case 2:
+			b, pb, o = a, pa, pa
+		}
 		switch op {
 		case "add":
 			// Add does not reduce: its admissible inputs are those whose sum stays in the headroom
@@ -258,23 +268,27 @@ func TestVerifRecC04(t *testing.T) {
 					return
 				}
 			}
-			o.Add(&ea, &eb)
+			o.Add(pa, pb)
 		case "sub":
-			o.Sub(&ea, &eb)
+			o.Sub(pa, pb)
 		case "mul":
-			o.Mul(&ea, &eb)
+			o.Mul(pa, pb)
 		case "mulgeneric":
-			if !verifMulGeneric(&o, &ea, &eb) {
+			if !verifMulGeneric(o, pa, pb) {
 				return
 			}
 		}
 		e := ev(op)
-		e["a"], e["b"], e["out"], e["outb"] = vl(a), vl(b), velem(&o), vbytes(&o)
+		e["a"], e["b"], e["out"], e["outb"] = vl(a), vl(b), velem(o), vbytes(o)
 		w.emit(e)
 	}
 	un := func(op string, a []uint64, k uint) {
 		ea := verifFromLimbs(a)
-		var o Element
+		var fresh Element
+		o := &fresh
+		if g.r.Intn(4) == 0 {
+			o = &ea // aliased receiver
+		}
 		e := ev(op)
 		switch op {
 		case "neg":
@@ -287,7 +301,7 @@ func TestVerifRecC04(t *testing.T) {
 			o.Pow2k(&ea, k)
 			e["k"] = k
 		case "pow2kgeneric":
-			if !verifPow2kGeneric(&o, &ea, k) {
+			if !verifPow2kGeneric(o, &ea, k) {
 				return
 			}
 			e["k"] = k
@@ -304,7 +318,7 @@ func TestVerifRecC04(t *testing.T) {
 		case "tobytes":
 			o.Set(&ea)
 		}
-		e["a"], e["out"], e["outb"] = vl(a), velem(&o), vbytes(&o)
+		e["a"], e["out"], e["outb"] = vl(a), velem(o), vbytes(o)
 		w.emit(e)
 	}
 	pred := func(a, b []uint64) {
@@ -336,10 +350,17 @@ func TestVerifRecC04(t *testing.T) {
 	}
 	sqrt := func(u, v []uint64) {
 		eu, evv := verifFromLimbs(u), verifFromLimbs(v)
-		var r Element
+		var fresh Element
+		r := &fresh
+		switch g.r.Intn(6) {
+		case 0:
+			r = &eu // the result overwrites an operand
+		case 1:
+			r = &evv
+		}
 		_, ok := r.SqrtRatioI(&eu, &evv)
 		e := ev("sqrtratio")
-		e["a"], e["b"], e["ok"], e["out"], e["outb"] = vl(u), vl(v), ok, velem(&r), vbytes(&r)
+		e["a"], e["b"], e["ok"], e["out"], e["outb"] = vl(u), vl(v), ok, velem(r), vbytes(r)
 		w.emit(e)
 	}
 
